@@ -108,3 +108,46 @@ pub fn main(a: &Args) -> i32 {
     }
     0
 }
+
+
+/// `axv soak`: one table that does not fit the cache, scanned again and again (C12 C16).  Every scan evicts most of the cache;
+/// the answer must stay the same and no scan may panic or hang, however many evictions have happened (Cache.tla: a read
+/// returns the last value written after any number of Evict / Load steps).
+pub fn soak(a: &Args) -> i32 {
+    eng::install_panic_hook();
+    let dir = PathBuf::from(a.str("dir", "/verif/work/soak"));
+    let scans = a.num("scans", 1500);
+    let cache = a.num("cache", 16) as usize;
+    let rows = a.num("rows", 400);
+    let _ = std::fs::remove_dir_all(&dir);
+    std::fs::create_dir_all(&dir).unwrap();
+    let mut e = Eng::new();
+    let mut bad: Vec<String> = vec![];
+    let ok = |o: &eng::Out| !matches!(o, eng::Out::Panic(_) | eng::Out::Hang | eng::Out::Err { .. });
+    let mut note = |what: &str, o: &eng::Out, bad: &mut Vec<String>| { if bad.len() < 5 { bad.push(format!("{what}: {}", o.json())); } };
+    let o = e.create(&dir.join("db.axm"), eng::cfg(4096, cache, 2, 3, 2));
+    if !ok(&o) { note("create", &o, &mut bad); }
+    let o = e.exec(0, "CREATE TABLE a (id INT, v TEXT)");
+    if !ok(&o) { note("create table", &o, &mut bad); }
+    let fat = "y".repeat(150);
+    for b in 0..rows / 10 {
+        let vals: Vec<String> = (0..10).map(|i| format!("({}, '{}')", b * 10 + i, fat)).collect();
+        let o = e.exec(0, &format!("INSERT INTO a VALUES {}", vals.join(", ")));
+        if !ok(&o) { note("insert", &o, &mut bad); }
+    }
+    let q = "SELECT COUNT(*), MIN(a.id), MAX(a.id) FROM a";
+    let first = e.exec(0, q);
+    if !ok(&first) { note("first scan", &first, &mut bad); }
+    let (mut done, mut differing) = (0u64, 0u64);
+    for i in 0..scans {
+        let o = e.exec(0, q);
+        done += 1;
+        if o.json() != first.json() { differing += 1; note(&format!("scan {i}"), &o, &mut bad); if differing > 20 { break; } }
+    }
+    let pages = std::fs::metadata(dir.join("db.axm")).map(|m| m.len() / 4096).unwrap_or(0);
+    let _ = e.close();
+    let _ = std::fs::remove_dir_all(&dir);
+    println!("{}", serde_json::json!({"kind": "soak", "scans": done, "differing": differing, "file_pages": pages, "cache_pages": cache,
+        "evictions_at_least": done * pages.saturating_sub(cache as u64), "first": first.json(), "bad": bad}));
+    0
+}
